@@ -5,7 +5,7 @@ import json, subprocess
 CHECKS = {
  "C01": dict(engine="E1-lattice", ref="5/C01",
    technique="bounded-exhaustive lattice enumeration of (robot, pose class, entry point, previous) on the real IK, each answer pushed through an independent FK model",
-   text="Every point of robots R (geometry incl. negative lengths x signs x offsets incl. beyond half a turn x dof 5/6) x poses (FK_ref of a joint lattice incl. J5 in {0, pi, +-1e-9, +-thr/2} and stretched elbow, scaled-out unreachable poses, wrist centre on the J1 axis, NaN/inf/1e308/denormal in every pose component, un-normalised quaternions) x 11 entry-point/previous variants is executed; every returned vector must be finite, map through FK_ref onto the request within 1e-6 m / 1e-6 rad (point+axis for 5-DOF), be normalised for plain inverse, and be absent for unreachable poses; panics are caught and judged. Threshold sweep (J5 -> k*pi on 5 robots and one length parameter -> 0): the axis that approaches a special value is enumerated along a magnitude ladder (13 per decade, 1e-12..1e-2, both sides, plus neighbours/squares/roots of the float literals of the source file under test).",
+   text="Every point of robots R (geometry incl. negative lengths x signs x offsets incl. beyond half a turn x dof 5/6) x poses (FK_ref of a joint lattice incl. J5 in {0, pi, +-1e-9, +-thr/2} and stretched elbow, scaled-out unreachable poses, wrist centre on the J1 axis, NaN/inf/1e308/denormal in every pose component, un-normalised quaternions) x 11 entry-point/previous variants is executed; every returned vector must be finite, map through FK_ref onto the request within 1e-6 m / 1e-6 rad (point+axis for 5-DOF), be normalised for plain inverse, and be absent for unreachable poses; panics are caught and judged. Threshold sweep (J5 -> k*pi on 5 robots and one length parameter -> 0): the axis that approaches a special value is enumerated along a magnitude ladder (13 per decade, 1e-12..1e-2, both sides, plus neighbours/squares/roots of the float literals of the source file under test). Discontinuity sweep: along 90 joint lines the jumps of the number of answers of inverse(FK(q)) (singularities, reach boundary) are located by bisection and all entry points are run 1e-12..1e-4 on either side of each.",
    note="Trusted: FK_ref, the arm-reach oracle used to label poses unreachable, nalgebra conversions. Lattice-relative."),
  "C02": dict(engine="E1-lattice", ref="5/C02",
    technique="bounded-exhaustive lattice enumeration with an oracle-computed branch count (independent arm IK) and closure re-solves",
@@ -41,11 +41,11 @@ CHECKS = {
    note="5-DOF clauses are evaluated on stacks whose tools/frames are axial, as the property presupposes."),
  "C10": dict(engine="E1-lattice", ref="5/C10",
    technique="bounded-exhaustive enumeration of cell configurations x postures x safety tables x modes x entry points against a brute-force all-pairs oracle with an own triangle-distance; first-collision mode re-run in rayon pools 1..16",
-   text="Synthetic box robot (vertex counts varied so the pre-filter's 'smaller mesh' choice flips) with/without tool and base, 11 environment layouts incl. bodies inside the inflated box of a link and enclosing bodies, 192 postures, tables: touch, 2/5 cm, mixed, per-pair overrides, NEVER_COLLIDES on each candidate pair in both key orders, NEVER_COLLIDES as environment / robot default with non-negative per-pair overrides; pools of every size 1..16 whenever exactly one pair collides in first-collision mode; collision_details/collides/RobotBody::collides/near (with a table different from the body's); plus the bundled RX160 STL meshes in the cell of the crate's example, decided pairwise by parry's exact queries. All-mode list must equal the oracle set, first-mode a non-empty subset iff the set is non-empty, no-check nothing; pool sizes 1,2,4,8,16 must agree.",
+   text="Synthetic box robot (vertex counts varied so the pre-filter's 'smaller mesh' choice flips) with/without tool and base, 13 environment layouts incl. bodies inside the inflated box of a link, enclosing bodies, a turned octahedron and a two-piece mesh inside the safety margin, 192 postures, tables: touch, 2/5 cm, mixed, per-pair overrides, NEVER_COLLIDES on each candidate pair in both key orders, NEVER_COLLIDES as environment / robot default with non-negative per-pair overrides; pools of every size 1..16 whenever exactly one pair collides in first-collision mode; collision_details/collides/RobotBody::collides/near (with a table different from the body's); plus the bundled RX160 STL meshes in the cell of the crate's example, decided pairwise by parry's exact queries. All-mode list must equal the oracle set, first-mode a non-empty subset iff the set is non-empty, no-check nothing; pool sizes 1,2,4,8,16 must agree. An unrelated robot on the same thread is asked about the same joints before every verdict (no state shared between instances).",
    note="The oracle (own f64 segment/triangle code) is cross-checked against parry's exact queries in every run; pairs within 1 mm of their limit are not judged; tasks are assumed atomic (textual audit of collisions.rs each run, exit 2 if it no longer holds)."),
  "C11": dict(engine="E1-lattice", ref="5/C11",
    technique="bounded-exhaustive enumeration of constructors x frames x environments x safety x limits x postures with a differential oracle (ordered filter of the underlying stack's answers)",
-   text="Each inverse entry point of KinematicsWithShape must return exactly the underlying stack's answers with !collides, in unchanged order, bit-equal; forward/link poses/singularity bit-equal; the underlying stack is built by the harness from the same pieces (tool over base over the limited robot), and constraints() must return the limits given to the constructor field by field (incl. hand-set public centers/tolerances); the constructed stack equals base*FK_ref*tool; positioned_robot places meshes at the link poses; previous in {near, CONSTRAINT_CENTERED, far}; a second robot (same environment size, obstacles moved / other safety) is queried on the same thread just before each call (no state shared between instances); verdicts for the reference filter come from collision_details.",
+   text="Each inverse entry point of KinematicsWithShape must return exactly the underlying stack's answers with !collides, in unchanged order, bit-equal; forward/link poses/singularity bit-equal; the underlying stack is built by the harness from the same pieces (tool over base over the limited robot), and constraints() must return the limits given to the constructor field by field (incl. hand-set public centers/tolerances); the constructed stack equals base*FK_ref*tool; positioned_robot places meshes at the link poses; previous in {near, CONSTRAINT_CENTERED, far}; previous also equal to each answer of the underlying stack itself (the robot 'already stands' on a solution, colliding ones included); a second robot (same environment size, obstacles moved / other safety) is queried on the same thread just before each call (no state shared between instances); verdicts for the reference filter come from collision_details.",
    note="collides() itself is tied to the pair oracle by C10. Cases where collisions remove some but not all answers must occur or the run is void."),
  "C12": dict(engine="E1-lattice + E4-sched", ref="5/C12",
    technique="scenario lattice on the real planner with scripted RNG, plus stateless DFS over all (or preemption-bounded) interleavings of the strategy race under a token-passing controller at the stop-flag hook points; rayon runs validated against explored traces",
@@ -61,7 +61,7 @@ CHECKS = {
    note="The full collision check is tied to the pair oracle by C10."),
  "C15": dict(engine="E1-lattice", ref="5/C15",
    technique="lattice enumeration of postures/stacks/steps; the private Jacobian is reconstructed row by row through the public API and compared with the geometric Jacobian of the reference link model; linear maps decided on a basis",
-   text="Robots unconstrained and constrained with each joint exactly on its upper / lower limit; stacks bare/tool/base/base+tool and three parallelogram stacks (ratios 1, 0.5, -0.5; reference by the chain rule), a third of the postures with whole turns added; J (via torques_from_vector(e_k)) vs axis x lever / axis from FK_ref within eps*reach + 4e-15*reach/eps; J_geo * velocities(X) = X on the 6 basis twists and 2 mixed ones; torques = J_geo^T F; isometry, vector and fixed entry points agree. Threshold sweep (differencing step inside 1e-7..1e-5, joints -> 0 / +-pi): the axis that approaches a special value is enumerated along a magnitude ladder (13 per decade, 1e-12..1e-2, both sides, plus neighbours/squares/roots of the float literals of the source file under test).",
+   text="Robots unconstrained and constrained with each joint exactly on its upper / lower limit; stacks bare/tool/base/base+tool and three parallelogram stacks (ratios 1, 0.5, -0.5; reference by the chain rule), a third of the postures with whole turns added; J (via torques_from_vector(e_k)) vs axis x lever / axis from FK_ref within eps*reach + 4e-15*reach/eps; J_geo * velocities(X) = X on the 6 basis twists and 2 mixed ones; torques = J_geo^T F; isometry, vector and fixed entry points agree. Threshold sweep (differencing step inside 1e-7..1e-5, joints -> 0 / +-pi): the axis that approaches a special value is enumerated along a magnitude ladder (13 per decade, 1e-12..1e-2, both sides, plus neighbours/squares/roots of the float literals of the source file under test). Discontinuity sweep: sign jumps of the quaternion returned by forward() are located by bisection along 54 joint lines and the Jacobian is evaluated with the differencing step straddling each jump.",
    note="Postures with condition number >= 1e3 are skipped (counted)."),
  "C16": dict(engine="E1-lattice", ref="5/C16",
    technique="exhaustive enumeration of all 30 (driven, coupled) pairs x scalings x stack variants on the real wrapper against the substitution model",
@@ -81,7 +81,7 @@ CHECKS = {
    note="J6 sign of a 5-DOF record is not compared (the loader documents that it blocks it)."),
  "C20": dict(engine="E1-lattice", ref="5/C20",
    technique="exhaustive enumeration of generated URDF/xacro descriptions over layout, naming, nesting and joint-order permutations, with rotating sign/limit/copy axes; error-path enumeration",
-   text="Extracted parameters equal the printed decimals, signs follow the axes, limits follow each syntax (six uniform styles and three mixed per joint, so a joint without <limit> follows limited siblings in every declaration order; parameter records incl. exact relations b == c2, c3 == -a2, all equal), the built solver's compliance equals arc membership (no <limit> => unconstrained), conflicting copies are errors; missing joints and token corruptions never panic.",
+   text="Extracted parameters equal the printed decimals, signs follow the axes, limits follow each syntax (six uniform styles and three mixed per joint, so a joint without <limit> follows limited siblings in every declaration order; parameter records incl. exact relations b == c2, c3 == -a2, all equal), the built solver's compliance equals arc membership (no <limit> => unconstrained), conflicting copies (differing in an origin, or in the limits only) are errors; missing joints and token corruptions never panic.",
    note="5-DOF detection is not judged (not demanded by the statement)."),
 }
 
